@@ -95,8 +95,10 @@ int main(void) {
                     else if (!roundtrip_ok(src, m, dst, r)) { printf("FAIL use %d: round trip broken\n", k + 1); bad = 1; } }
                 if (!bad) printf("ok need=%zu\n", need);
                 free(mem); free(src); free(dst); }
-        } else if (!strcmp(op, "dstatic") || !strcmp(op, "dheap") || !strcmp(op, "dheapw")) {
-            int isStatic = !strcmp(op, "dstatic"); int byBytes = !strcmp(op, "dheapw"); size_t budget = 0; size_t W = (size_t)strtoull(strtok(NULL, " "), NULL, 10); size_t n; unsigned char* in = zv_unhex(strtok(NULL, " "), &n);
+        } else if (!strcmp(op, "dstatic") || !strcmp(op, "dheap") || !strcmp(op, "dheapw") || !strcmp(op, "dstaticS") || !strcmp(op, "dheapS") || !strcmp(op, "dheapwS")) {
+            /* suffix S: the same with ZSTD_d_stableOutBuffer=1 (one fixed output buffer presented to every call, as that mode requires) */
+            int const stableOut = (op[strlen(op) - 1] == 'S');
+            int isStatic = !strncmp(op, "dstatic", 7); int byBytes = !strncmp(op, "dheapw", 6); size_t budget = 0; size_t W = (size_t)strtoull(strtok(NULL, " "), NULL, 10); size_t n; unsigned char* in = zv_unhex(strtok(NULL, " "), &n);
             size_t ic[64], oc[64]; size_t ni = parse_csv(strtok(NULL, " "), ic, 64), no = parse_csv(strtok(NULL, " "), oc, 64);
             char bufs[400]; size_t bl = 0; size_t cap = 1 << 22, consumed = 0, produced = 0, r = 1, ii = 0, oi = 0; unsigned char* out = (unsigned char*)malloc(cap); ZSTD_DCtx* d; void* mem = NULL; size_t need = 0, szof = 0; int idle = 0, calls = 0;
             cnt_reset();
@@ -105,10 +107,13 @@ int main(void) {
                 if (d && ZSTD_isError(sr)) { printf("FAIL limit refused: %s\n", ZSTD_getErrorName(sr)); ZSTD_freeDCtx(d); cnt_release_leaks(); free(in); free(out); continue; }
                 budget = ZSTD_estimateDStreamSize(byBytes ? W : (size_t)1 << W); g_reqCap = budget; }
             if (!d) { printf("FAIL no context\n"); free(in); free(out); free(mem); continue; }
-            while (calls++ < 5000000) { size_t isz = ic[ii++ % ni], osz = oc[oi++ % no]; ZSTD_inBuffer ib; ZSTD_outBuffer ob;
+            if (stableOut) ZSTD_DCtx_setParameter(d, ZSTD_d_stableOutBuffer, 1);
+            while (calls++ < 5000000) { size_t isz = ic[ii++ % ni], osz = oc[oi++ % no]; ZSTD_inBuffer ib; ZSTD_outBuffer ob; size_t p0;
                 if (isz > n - consumed) isz = n - consumed; if (osz > cap - produced) osz = cap - produced;
                 ib.src = in + consumed; ib.size = isz; ib.pos = 0; ob.dst = out + produced; ob.size = osz; ob.pos = 0;
-                r = ZSTD_decompressStream(d, &ob, &ib); if (ZSTD_isError(r)) break; consumed += ib.pos; produced += ob.pos;
+                if (stableOut) { ob.dst = out; ob.size = cap; ob.pos = produced; }
+                p0 = ob.pos;
+                r = ZSTD_decompressStream(d, &ob, &ib); if (ZSTD_isError(r)) break; consumed += ib.pos; produced += ob.pos - p0; ob.pos -= p0;
                 if (r == 0 && (ib.pos || ob.pos) && bl < sizeof bufs - 40) bl += (size_t)snprintf(bufs + bl, sizeof bufs - bl, "%s%zu:%zu", bl ? "," : "", d->inBuffSize, d->outBuffSize);   /* a frame just ended */
                 if (ib.pos == 0 && ob.pos == 0) { if (consumed == n) { if (++idle >= 2) break; } else if (++idle > 40) break; } else idle = 0; }
             szof = ZSTD_sizeof_DCtx(d);
